@@ -59,6 +59,107 @@ theorem parallel_failure_not_done (h : ReachN c xs tail f p0 y0 s)
   have := congrArg List.getLast? h2
   simp at this
 
+/-! ### the source is never asked again -/
+
+/-- the part of the generator after the source has ended or failed (flush phase) and the final states -/
+def afterSource (s : PS β ε) : Prop := s.pc.inFlush = true ∨ s.isFinal = true
+
+/-- once the source has ended or raised, no step leads back into the loop and `draw` is never enabled again:
+    a source that could go on after its exception (a reader that skips a bad record) is never asked a second time -/
+theorem source_never_asked_again {l : Label ε} (ha : afterSource s) (hs : step? c xs tail f s l = some s') :
+    afterSource s' ∧ l ≠ .draw := by
+  unfold afterSource at *
+  have hfin : ∀ t : PS β ε, t.isFinal = true ↔ (t.pc = .done ∨ t.pc = .failed ∨ t.pc = .closed) := by
+    intro t; cases h : t.pc <;> simp [PS.isFinal, h]
+  rw [hfin] at ha ⊢
+  cases l with
+  | next =>
+    cases hpc : s.pc <;> simp [step?, hpc, PC.inFlush] at hs ha <;> subst hs <;> simp [PC.inFlush, hpc]
+  | close =>
+    cases hpc : s.pc <;> simp [step?, hpc, PC.inFlush] at hs ha <;> subst hs <;> simp [PC.inFlush, hpc]
+  | throw e =>
+    cases hpc : s.pc <;> simp [step?, hpc, PC.inFlush] at hs ha <;> subst hs <;> simp [PC.inFlush, hpc]
+  | draw =>
+    cases hpc : s.pc <;> simp [step?, hpc, PC.inFlush] at hs ha
+  | get =>
+    cases hpc : s.pc <;> simp [step?, hpc, PC.inFlush] at hs ha
+    obtain ⟨i, rest, x, -, -, h | h | h⟩ := getStep_some hs
+    · obtain ⟨v, -, -, rfl⟩ := h; simp [PC.inFlush]
+    · obtain ⟨v, -, -, rfl⟩ := h; simp [PC.inFlush]
+    · obtain ⟨e, -, rfl⟩ := h; simp [PC.inFlush]
+  | flush =>
+    cases hpc : s.pc <;> simp [step?, hpc, PC.inFlush] at hs ha
+    split at hs
+    · split at hs <;> (cases hs; simp [PC.inFlush])
+    · cases hs; simp [PC.inFlush]
+  | start i =>
+    simp only [step?] at hs
+    split at hs
+    · cases hs; exact ⟨ha, by simp⟩
+    · cases hs
+  | finish i =>
+    simp only [step?] at hs
+    split at hs
+    · cases hs; exact ⟨ha, by simp⟩
+    · cases hs
+
+/-- the draw that finds the source ended or failed leads into that part -/
+theorem end_of_source_enters_flush (hs : step? c xs tail f s .draw = some s') (hend : ¬ s.drawn < xs.length) :
+    afterSource s' ∧ s'.pending = tail ∧ s'.drawn = s.drawn := by
+  simp only [step?, if_neg hend] at hs
+  split at hs
+  · cases hs; simp [afterSource, PC.inFlush]
+  · cases hs
+
+/-- no step after the end of the source changes the number of elements drawn -/
+theorem drawn_unchanged_after_source {l : Label ε} (ha : afterSource s) (hs : step? c xs tail f s l = some s') :
+    s'.drawn = s.drawn := by
+  have hnd := (source_never_asked_again ha hs).2
+  cases l with
+  | draw => exact absurd rfl hnd
+  | next => cases hpc : s.pc <;> simp [step?, hpc] at hs <;> (try subst hs) <;> rfl
+  | close => cases hpc : s.pc <;> simp [step?, hpc] at hs <;> (try subst hs) <;> rfl
+  | throw e => cases hpc : s.pc <;> simp [step?, hpc] at hs <;> (try subst hs) <;> rfl
+  | get =>
+    cases hpc : s.pc <;> simp [step?, hpc] at hs
+    all_goals (obtain ⟨i, rest, x, -, -, h | h | h⟩ := getStep_some hs)
+    all_goals first
+      | (obtain ⟨v, -, -, rfl⟩ := h; rfl)
+      | (obtain ⟨e, -, rfl⟩ := h; rfl)
+  | flush =>
+    simp only [step?] at hs
+    split at hs
+    · split at hs
+      · split at hs <;> (cases hs; rfl)
+      · cases hs; rfl
+    · cases hs
+  | start i =>
+    simp only [step?] at hs
+    split at hs
+    · cases hs; rfl
+    · cases hs
+  | finish i =>
+    simp only [step?] at hs
+    split at hs
+    · cases hs; rfl
+    · cases hs
+
+/-- hence over any continuation: the number of elements drawn never changes again -/
+theorem drawn_frozen_after_source (ha : afterSource s) (ls : List (Label ε))
+    (hr : runLabels c xs tail f s ls = some s') : s'.drawn = s.drawn ∧ afterSource s' := by
+  induction ls generalizing s with
+  | nil => cases hr; exact ⟨rfl, ha⟩
+  | cons l ls ih =>
+    simp only [runLabels] at hr
+    cases h1 : step? c xs tail f s l with
+    | none => rw [h1] at hr; cases hr
+    | some s1 =>
+      rw [h1] at hr
+      have ha1 := (source_never_asked_again ha h1).1
+      have hd1 := drawn_unchanged_after_source ha h1
+      obtain ⟨e2, ha2⟩ := ih ha1 hr
+      exact ⟨e2.trans hd1, ha2⟩
+
 /-! ### after the end -/
 
 theorem finished_after_failure (hfin : s.isFinal = true) : step? c xs tail f s .next = some s := by
@@ -133,3 +234,7 @@ end Gpv.C03
 #print axioms Gpv.C03.final_step_eq
 #print axioms Gpv.C03.no_later_output
 #print axioms Gpv.C03.no_later_output_run
+#print axioms Gpv.C03.source_never_asked_again
+#print axioms Gpv.C03.end_of_source_enters_flush
+#print axioms Gpv.C03.drawn_unchanged_after_source
+#print axioms Gpv.C03.drawn_frozen_after_source
